@@ -145,7 +145,7 @@ package ast
 // every stored pair carries the hash of its key
 //@ pure func lpHashed(lp *linkedPairs) bool = forall j int :: (0 <= j && j < lp.size) ==> lpAt(lp, j).hash == caching.strHash(txt(lpAt(lp, j).Key))
 // the index, when present, maps the hash of every stored pair to the FIRST slot holding that hash
-//@ pure func lpIndexed(lp *linkedPairs) bool = lp.index != nil ==> ((forall h uint64 :: has(lp.index, h) ==> (0 <= lp.index[h] && lp.index[h] < lp.size)) && (forall j int :: (0 <= j && j < lp.size) ==> (has(lp.index, lpAt(lp, j).hash) && 0 <= lp.index[lpAt(lp, j).hash] && lp.index[lpAt(lp, j).hash] <= j && lpAt(lp, lp.index[lpAt(lp, j).hash]).hash == lpAt(lp, j).hash)))
+//@ pure func lpIndexed(lp *linkedPairs) bool = lp.index != nil ==> ((forall j int :: (0 <= j && j < lp.size) ==> (has(lp.index, lpAt(lp, j).hash) && 0 <= lp.index[lpAt(lp, j).hash] && lp.index[lpAt(lp, j).hash] <= j && lpAt(lp, lp.index[lpAt(lp, j).hash]).hash == lpAt(lp, j).hash)))
 
 //@ func (*linkedPairs).At props C14,C15
 //@   requires self == nil || lpWF(self)
@@ -158,7 +158,6 @@ package ast
 //@   modifies self.index, self.index[_]
 //@   ensures self.index != nil && lpIndexed(self) && lpWF(self)
 //@   loop 0: invariant -1 <= i && i < self.size && self.index != nil && lpWF(self) && same(self.size, pre(self.size))
-//@   loop 0: invariant forall h uint64 :: has(self.index, h) ==> (0 <= self.index[h] && self.index[h] < self.size)
 //@   loop 0: invariant forall j int :: (i < j && j < self.size) ==> (has(self.index, lpAt(self, j).hash) && i < self.index[lpAt(self, j).hash] && self.index[lpAt(self, j).hash] <= j && lpAt(self, self.index[lpAt(self, j).hash]).hash == lpAt(self, j).hash)
 //@   loop 0: decreases i + 1
 
